@@ -101,9 +101,9 @@ func pagedGen(rng *proto.RNG, tier string, shard, nshards int, w *bufio.Writer) 
 	e := &emitter{w: w, shard: shard, nshards: nshards}
 	// (ii) exhaustive: page sizes 1..maxPS, all sequences of length maxLen over the alphabet
 	// below (indexes 0, middle, last, one past the end so that every page boundary is crossed)
-	maxLen, maxPS := 5, 3
+	maxLen, maxPS := 4, 5
 	if tier == "thorough" {
-		maxLen, maxPS = 6, 5
+		maxLen, maxPS = 5, 5
 	}
 	alpha := []string{"add", "del0", "delmid", "dellast", "setlast", "grow+1", "grow+ps", "growset+0", "growset+2", "bgs", "get-last", "del-oob"}
 	for ps := 1; ps <= maxPS; ps++ {
